@@ -21,6 +21,7 @@ FALSEY = {'0', 'CK_FALSE', 'NULL', 'NULL_PTR', 'false', 'nullptr'}
 TRUTHY = {'CK_TRUE', 'true'}
 CONST_RE = re.compile(r'^(CK[A-Z]?_[A-Z_0-9a-z]+|SESSION_OP_[A-Z_]+|OBJECT_OP_[A-Z]+|-?\d+|true|false|NULL|[A-Za-z]+::[A-Za-z_0-9:]+)$')
 ID_RE = re.compile(r'[A-Za-z_][A-Za-z_0-9]*')
+IT_RE = re.compile(r'^#it\((\w+),(\d+)\)$')
 PURE_PREFIX = ('get', 'is', 'have', 'has')
 PURE_NAMES = {'size', 'attributeExists', 'length', 'empty', 'byte_str', 'const_byte_str', 'find', 'end', 'begin',
               'bits', 'long_val', 'substr', 'count', 'c_str', 'at', 'operator[]', 'operator==', 'operator!=',
@@ -83,6 +84,13 @@ def canon(e, env=None):
         if e.get('recv') is not None:
             parts.append(canon(e['recv'], env))
         parts += [canon(a, env) for a in e.get('args', [])]
+        if env is not None and c in ('begin', 'end', 'operator*', 'operator->', 'operator[]') and parts:
+            # small concrete vectors (modelled by 'size(x)' = n and 'operator[](x,k)' entries in the environment): iterators are '#it(x,k)'
+            if c in ('begin', 'end') and len(parts) == 1 and str(env.get('size(%s)' % parts[0], '')).isdigit() and ('operator[](%s,0)' % parts[0]) in env:
+                return '#it(%s,%s)' % (parts[0], 0 if c == 'begin' else env['size(%s)' % parts[0]])
+            m = IT_RE.match(parts[0])
+            if c in ('operator*', 'operator->') and m and ('operator[](%s,%s)' % m.groups()) in env:
+                return env['operator[](%s,%s)' % m.groups()]
         if not is_pure_name(c):
             return '%s@%s(%s)' % (c, e.get('l'), ','.join(parts))
         r = c + '(' + ','.join(parts) + ')'
@@ -95,7 +103,11 @@ def canon(e, env=None):
             key = '*' + inner
             if env is not None and env.get(key) is not None:
                 return env[key]
-            return '*' + canon(e['e'], env)
+            v = canon(e['e'], env)
+            m = IT_RE.match(v) if env is not None else None
+            if m and ('operator[](%s,%s)' % m.groups()) in env:
+                return env['operator[](%s,%s)' % m.groups()]
+            return '*' + v
         return e['op'] + canon(e['e'], env)
     if k in ('Bin', 'Assign'):
         return '(' + canon(e['a'], env) + e['op'] + canon(e['b'], env) + ')'
@@ -222,6 +234,7 @@ class Interp:
     def pre_call(self, e, st): pass      # before the call's side effects on its arguments/receiver are applied
     def pre_assign(self, lhs, rhs, st): pass   # before the side effects of the lvalue (arr[i++]) are applied
     def on_assign(self, lhs, rhs, st): pass
+    def on_delete(self, e, st): pass
     def on_return(self, s, st): pass
     def on_exit(self, st): pass
     def on_fact(self, atom, truth, st): pass
@@ -249,6 +262,9 @@ class Interp:
             if e.get('fn') is not None:
                 self.effects(e['fn'], st)
             self.pre_call(e, st)
+            if short(e.get('callee')) in ('operator++', 'operator--') and e.get('recv') is not None and e['recv'].get('k') == 'Var' \
+                    and self.step_var(e['recv']['name'], 1 if short(e['callee']) == 'operator++' else -1, st):
+                return
             self.havoc_args(e, st)
             self.container_model(e, st)
             self.on_call(e, st)
@@ -259,9 +275,15 @@ class Interp:
             self.havoc_args(e, st)
             self.on_call(e, st)
             return
+        if k == 'Delete':
+            self.effects(e.get('e'), st)
+            self.on_delete(e, st)
+            return
         if k == 'Un' and e['op'] in ('++', '--'):
             self.effects(e['e'], st)
             if e['e'].get('k') == 'Var':
+                if self.step_var(e['e']['name'], 1 if e['op'] == '++' else -1, st):
+                    return
                 kill(st, e['e']['name'])
             else:
                 kill(st, canon(e['e']))
@@ -319,6 +341,22 @@ class Interp:
             c = short(e.get('callee'))
             if not is_pure_name(c):
                 kill(st, r['name'])
+
+    def step_var(self, name, delta, st):
+        """i++ on a variable whose abstract value is a concrete number or an iterator into a modelled vector: compute instead of forgetting."""
+        v = st.env.get(name)
+        if v is None or not (self.cenv is not None and self.cenv.get('#concrete-loops')):
+            return False
+        if re.fullmatch(r'-?\d+', str(v)):
+            nv = str(int(v) + delta)
+        else:
+            m = IT_RE.match(str(v))
+            if not m:
+                return False
+            nv = '#it(%s,%d)' % (m.group(1), int(m.group(2)) + delta)
+        st.facts = {f for f in st.facts if not mentions(f[0], name)}
+        st.env[name] = nv
+        return True
 
     def this_modset(self, qname, depth=3, seen=None):
         """Short names of the fields of *this that the method qname may write (assignments, ++/--, non-const calls on a field, delete), transitively through own calls."""
@@ -382,7 +420,31 @@ class Interp:
     def is_array(self, name):
         return self.types.get(name, '').endswith(']')
 
+    def model_key(self, lhs, st):
+        """Environment key of an element of a modelled small vector that `lhs` denotes (x[k], *it), else None."""
+        k = lhs.get('k')
+        if k == 'Un' and lhs.get('op') == '*':
+            m = IT_RE.match(canon(lhs['e'], st.env))
+        elif k == 'Call' and short(lhs.get('callee')) == 'operator*' and (lhs.get('recv') is not None or lhs.get('args')):
+            m = IT_RE.match(canon(lhs.get('recv') or lhs['args'][0], st.env))
+        elif k == 'Call' and short(lhs.get('callee')) == 'operator[]' and lhs.get('recv') is not None and lhs.get('args'):
+            key = 'operator[](%s,%s)' % (canon(lhs['recv'], st.env), canon(lhs['args'][0], st.env))
+            return key if key in st.env else None
+        elif k == 'Index':
+            key = 'operator[](%s,%s)' % (canon(lhs['base'], st.env), canon(lhs['idx'], st.env))
+            return key if key in st.env else None
+        else:
+            return None
+        if m and ('operator[](%s,%s)' % m.groups()) in st.env:
+            return 'operator[](%s,%s)' % m.groups()
+        return None
+
     def assign(self, lhs, rhs, st, op='='):
+        mk = self.model_key(lhs, st) if lhs.get('k') != 'Var' else None
+        if mk is not None and op == '=' and rhs is not None:
+            st.env[mk] = canon(rhs, st.env)
+            self.on_assign(lhs, rhs, st)
+            return
         if lhs.get('k') == 'Var' and lhs['kind'] in ('local', 'param'):
             n = lhs['name']
             val = canon(rhs, st.env) if (op == '=' and rhs is not None) else None
@@ -428,6 +490,12 @@ class Interp:
             return e.get('v')
         if k == 'Var' and e['kind'] == 'enum':
             return e['v']
+        if k == 'Call' and short(e.get('callee')) in ('operator!=', 'operator==') and (len(e.get('args', [])) + (1 if e.get('recv') is not None else 0)) == 2:
+            ops = ([e['recv']] if e.get('recv') is not None else []) + list(e.get('args', []))
+            a, b = IT_RE.match(canon(ops[0], st.env)), IT_RE.match(canon(ops[1], st.env))
+            if a and b and a.group(1) == b.group(1):
+                eq = a.group(2) == b.group(2)
+                return int(eq if short(e['callee']) == 'operator==' else not eq)
         c = canon(e, st.env)
         if c in self.cenv:
             return self.cenv[c]
@@ -1087,7 +1155,12 @@ class Outcomes(Interp):
     def on_assign(self, lhs, rhs, st):
         if lhs.get('k') == 'Var' and lhs['kind'] in ('local',):
             return
-        self.ev(st, ('write', canon(lhs), canon(rhs, st.env) if rhs is not None else '?', lhs.get('l')))
+        mk = self.model_key(lhs, st) if lhs.get('k') != 'Var' else None
+        self.ev(st, ('write', mk or canon(lhs), canon(rhs, st.env) if rhs is not None else '?', lhs.get('l')))
+
+    def on_delete(self, e, st):
+        if self.record_calls is None or 'delete' in self.record_calls:
+            self.ev(st, ('call', 'delete', (canon(e.get('e')),), e.get('l')))
 
     def on_return(self, s, st):
         if '__ret' in st.aut:
